@@ -151,7 +151,7 @@ class TempProject:
                 except Exception:
                     lines.append("prefix <unrenderable> suffix")
             lines.append("trailer")
-            full = self.path(path)
+            full = os.path.normpath(self.path(path))
             os.makedirs(os.path.dirname(full), exist_ok=True)
             with open(full, "w", encoding="utf-8", newline="") as f:
                 f.write(self.line_sep.join(lines) + self.line_sep)
